@@ -159,7 +159,11 @@ func (c *recursionChecker) checkMixedValueNode(
 
 func (c *recursionChecker) checkType(typeName string, types map[string]ischema.Type) error {
 	if !c.visit(typeName) {
-		return c.createError()
+		err := c.createError()
+		// The refused type is reported at the end of the chain, but it is not part of
+		// the chain: another alternative of the same `@a | @b` may still be walked.
+		c.path = c.path[:len(c.path)-1]
+		return err
 	}
 	defer c.leave(typeName)
 
